@@ -400,3 +400,27 @@ def ob_dbos_release_reload(wk: int, T: int, d1: int, d2: int, early: bool, precr
     bad = _why(o, "dbos", T, REF[("dbos", wk)])
     _debug(f"dbos wk={wk} T={T} d1={d1} d2={d2} early={early} precreate={precreate}", bad)
     return not bad
+
+
+@obligation(quick=400, thorough=880,
+            partitions_quick=[f"lat == {l} and d2 == {d}" for l in (1, 2) for d in (0, 1, 2)],
+            partitions_thorough=[f"lat == {l} and d2 == {d} and T == {t} and wk == {w}" for l in (1, 2) for d in (0, 1, 2) for t in (1, 2) for w in (0, 1)],
+            what="in-process stack over a store whose handler look-ups by run id answer lat seconds late (environment stub; so the release timer, "
+                 "a sender's reload and every status write HOLD the run's reload lock across real waits): two events sent in quick succession "
+                 "around the moment the release timer fires — a holder, a queued sender and a late-comer on the same run's lock — the run "
+                 "finishes with the result and step executions of the uninterrupted run (the second event never overtakes the first), no send "
+                 "starts more than one control loop, none is left at the end",
+            bounds={"idle_timeout T": "1..2", "look-up latency": "1..2", "first event at": "0..T+3*lat", "second event": "0..2 later", "workflow kinds": 2})
+def ob_inproc_two_sends_slow_lookups(wk: int, T: int, lat: int, a1: int, d2: int, early: bool) -> bool:
+    """
+    pre: 0 <= wk <= 1 and 1 <= T <= 2 and 1 <= lat <= 2 and 0 <= a1 <= T + 3 * lat and 0 <= d2 <= 2
+    post: _
+    """
+    wk, T, lat = concrete(wk, 0, 1), concrete(T, 1, 2), concrete(lat, 1, 2)
+    a1, d2 = concrete(a1, 0, 8), concrete(d2, 0, 2)
+    early = bool(early)
+    o = run_stack("inproc", T, [(a1, P1), (a1 + d2, P2)], _make(wk), _mk_event, early=early, probe_to=0,
+                  settle=T + 6 * lat + 2, slow_write=(-1, lat, True))
+    bad = _why_slow(o, REF[("inproc", wk)])
+    _debug(f"slow lookups wk={wk} T={T} lat={lat} a1={a1} d2={d2} early={early}", bad)
+    return not bad
